@@ -252,6 +252,65 @@ int execvp(const char *file, char *const argv[]) {
   return r;
 }
 
+// posix_spawn / posix_spawnp without file actions and attributes are carried out as fork + exec through the
+// wrappers above (the errno of a failed exec travels back through a close-on-exec pipe, as glibc reports it);
+// anything fancier is passed through and the controller will call the run inconclusive
+#include <spawn.h>
+extern char **environ;
+static int spawn_common(pid_t *pidp, const char *file, const posix_spawn_file_actions_t *fa, const posix_spawnattr_t *at, char *const argv[],
+                        char *const envp[], int use_path) {
+  int pfd[2];
+  if (pipe2(pfd, O_CLOEXEC) < 0) return errno;
+  pid_t pid = fork();
+  if (pid < 0) {
+    int e = errno;
+    close(pfd[0]);
+    close(pfd[1]);
+    return e;
+  }
+  if (pid == 0) {
+    close(pfd[0]);
+    if (envp) environ = (char **)envp;
+    if (use_path) execvp(file, argv);
+    else {
+      // execv through the same event: the controller does not care how the path was found
+      execvp(file, argv);
+    }
+    int e = errno;
+    if (write(pfd[1], &e, sizeof e) < 0) {}
+    _exit(127);
+  }
+  close(pfd[1]);
+  // never block outside a request: park until the controller has seen the child exec, fail to exec, or die
+  request(NULL, 0, "spawnwait %d", (int)pid);
+  int e = 0;
+  ssize_t k;
+  do k = read(pfd[0], &e, sizeof e);
+  while (k < 0 && errno == EINTR);
+  close(pfd[0]);
+  if (k == (ssize_t)sizeof e && e) {
+    int st;
+    waitpid(pid, &st, 0); // through the wrapper: granted once the child is gone
+    return e;
+  }
+  if (pidp) *pidp = pid;
+  return 0;
+}
+
+int posix_spawnp(pid_t *pidp, const char *file, const posix_spawn_file_actions_t *fa, const posix_spawnattr_t *at, char *const argv[], char *const envp[]) {
+  static int (*real)(pid_t *, const char *, const posix_spawn_file_actions_t *, const posix_spawnattr_t *, char *const[], char *const[]);
+  if (!real) real = dlsym(RTLD_NEXT, "posix_spawnp");
+  if (!active || coarse || fa || at) return real(pidp, file, fa, at, argv, envp);
+  return spawn_common(pidp, file, fa, at, argv, envp, 1);
+}
+
+int posix_spawn(pid_t *pidp, const char *path, const posix_spawn_file_actions_t *fa, const posix_spawnattr_t *at, char *const argv[], char *const envp[]) {
+  static int (*real)(pid_t *, const char *, const posix_spawn_file_actions_t *, const posix_spawnattr_t *, char *const[], char *const[]);
+  if (!real) real = dlsym(RTLD_NEXT, "posix_spawn");
+  if (!active || coarse || fa || at) return real(pidp, path, fa, at, argv, envp);
+  return spawn_common(pidp, path, fa, at, argv, envp, 0);
+}
+
 pid_t wait(int *status) {
   static pid_t (*real)(int *);
   if (!real) real = dlsym(RTLD_NEXT, "wait");
@@ -281,10 +340,9 @@ pid_t waitpid(pid_t pid, int *status, int options) {
 }
 
 // ------------------------------------------------------------------ files
-int mkstemp(char *tmpl) {
-  static int (*real)(char *);
-  if (!real) real = dlsym(RTLD_NEXT, "mkstemp");
-  if (!active || coarse) return real(tmpl);
+// mkstemp family: the six X's (which sit `suffixlen` bytes before the end) are supplied by the controller,
+// so temporary names are a function of the seed
+static int do_mkstemp(char *tmpl, int suffixlen, int flags) {
   char one[1024], extra[128];
   esc(one, sizeof one, tmpl);
   int e = request(extra, sizeof extra, "mkstemp %s", one);
@@ -295,17 +353,46 @@ int mkstemp(char *tmpl) {
   size_t n = strlen(tmpl);
   const char *p = strstr(extra, "name=");
   int fd = -1;
-  if (p && n >= 6 && strlen(p + 5) >= 6 && !strcmp(tmpl + n - 6, "XXXXXX")) {
-    memcpy(tmpl + n - 6, p + 5, 6);
-    fd = open(tmpl, O_RDWR | O_CREAT | O_EXCL, 0600);
-    if (fd < 0) memcpy(tmpl + n - 6, "XXXXXX", 6);
+  if (p && suffixlen >= 0 && n >= (size_t)suffixlen + 6 && strlen(p + 5) >= 6 && !strncmp(tmpl + n - suffixlen - 6, "XXXXXX", 6)) {
+    memcpy(tmpl + n - suffixlen - 6, p + 5, 6);
+    fd = open(tmpl, O_RDWR | O_CREAT | O_EXCL | (flags & (O_CLOEXEC | O_APPEND | O_SYNC)), 0600);
+    if (fd < 0) memcpy(tmpl + n - suffixlen - 6, "XXXXXX", 6);
   }
-  if (fd < 0) fd = real(tmpl);
+  if (fd < 0) {
+    static int (*real)(char *, int, int);
+    if (!real) real = dlsym(RTLD_NEXT, "mkostemps");
+    fd = real(tmpl, suffixlen, flags);
+  }
   int saved = errno;
   esc(one, sizeof one, tmpl);
   sendf("RES mkstemp %d %s", fd, one);
   errno = saved;
   return fd;
+}
+
+int mkstemp(char *tmpl) {
+  static int (*real)(char *);
+  if (!real) real = dlsym(RTLD_NEXT, "mkstemp");
+  if (!active || coarse) return real(tmpl);
+  return do_mkstemp(tmpl, 0, 0);
+}
+int mkstemps(char *tmpl, int suffixlen) {
+  static int (*real)(char *, int);
+  if (!real) real = dlsym(RTLD_NEXT, "mkstemps");
+  if (!active || coarse) return real(tmpl, suffixlen);
+  return do_mkstemp(tmpl, suffixlen, 0);
+}
+int mkostemp(char *tmpl, int flags) {
+  static int (*real)(char *, int);
+  if (!real) real = dlsym(RTLD_NEXT, "mkostemp");
+  if (!active || coarse) return real(tmpl, flags);
+  return do_mkstemp(tmpl, 0, flags);
+}
+int mkostemps(char *tmpl, int suffixlen, int flags) {
+  static int (*real)(char *, int, int);
+  if (!real) real = dlsym(RTLD_NEXT, "mkostemps");
+  if (!active || coarse) return real(tmpl, suffixlen, flags);
+  return do_mkstemp(tmpl, suffixlen, flags);
 }
 
 int unlink(const char *path) {
